@@ -1,8 +1,9 @@
 import TracklibVerif.Model.Split
 import TracklibVerif.Drv.Util
 /-! Driver handler for C11. Commands:
-  split <markers as 0/1 string>   → pieces as lists of observation indices, `;`-separated
-                                    (an empty piece is `e`) ; no piece at all → `_`
+  split <markers as 0/1 string>   → `<pieces> <ids>`: pieces as lists of observation indices, `;`-separated
+                                    (an empty piece is `e`) ; no piece at all → `_` ; ids = the numbers
+                                    `count.begin.end` of the pieces' uids, `;`-separated
   splitlim <limit> <markers> <points>  → the same for `split(track, name, limit)`; `limit` and the coordinates
                                     (`x,y,z;x,y,z;…`, one point per observation) are IEEE bit patterns: the
                                     model runs at `Float` with `Float.sqrt`
@@ -26,6 +27,9 @@ open TV.Split TV.Drv
 
 def showPieces (pieces : List (List Nat)) : String :=
   joinWith ";" (pieces.map (fun p => if p.isEmpty then "e" else ",".intercalate (p.map toString)))
+
+def showIds (ids : List PId) : String :=
+  joinWith ";" (ids.map (fun (c, b, e) => s!"{c}.{b}.{e}"))
 
 def splitIdx0 (ms : List Bool) : List (List Nat) := split ((List.range ms.length).zip ms)
 
@@ -98,14 +102,17 @@ def handle (cmd : String) (args : List String) : String :=
   match cmd, args with
   | "split", [m] =>
     match marks? m with
-    | some ms => showPieces (splitIdx0 ms)
+    | some ms =>
+      let ids := (splitU (fun _ => false) (fun _ => true) ((List.range ms.length).zip ms)).map Prod.fst
+      s!"{showPieces (splitIdx0 ms)} {showIds ids}"
     | none => "bad-request"
   | "splitlim", [lim, m, pts] =>
     match float? lim, marks? m, points? pts with
     | some limit, some ms, some ps =>
       if ms.length != ps.length then "bad-request" else
       let obs := ((List.range ms.length).zip ps).zip ms
-      showPieces ((splitLimit pieceLength limit obs).map (List.map Prod.fst))
+      let ids := (splitU (fun p => limitShort limit (pieceLength p)) (fun p => limitKeepTail limit (pieceLength p)) obs).map Prod.fst
+      s!"{showPieces ((splitLimit pieceLength limit obs).map (List.map Prod.fst))} {showIds ids}"
     | _, _, _ => "bad-request"
   | "splitidx", [lim, idx, pts] =>
     match float? lim, intList? idx, points? pts with
